@@ -483,7 +483,7 @@ class Interp:
                 p = ent[1]
                 mk = lambda fi: self.make_closure(fi) if fi is not None else None  # noqa
                 return PropertyV(mk(p.get("fget")), mk(p.get("fset")), mk(p.get("fdel")))
-            return self.member_value(owner, ent, None, name)
+            return self.member_value(owner, ent, obj, name)
         if isinstance(obj, SuperV):
             cv = obj.obj.cls if isinstance(obj.obj, Obj) else obj.obj
             owner, ent = self.class_lookup(cv, name, after=obj.cls)
